@@ -35,6 +35,13 @@ CHECKS = {
         'Tie: usage sets and trees vs pyparsing on generated derivations; call histories (exhaustive short, random long, shared module PARSER with interleaved evaluations) vs model and vs fresh parser.',
    note=PROOF_NOTE + ' Aliasing of the cached sets (rebinding vs clear()) is represented by value semantics in the model and checked on the real object per call (scratch empty, cache keys).',
    technique='Lean 4 proof (invariant over histories; doomed-alternative lemma for usage) + history correspondence', design='§6 C10'),
+ 'C08': dict(
+   text='ItemGrader.check modelled generically over an arbitrary check_response; proved for every answers tuple, listing order and input: the grade is the maximum over all (alternative, expect value) pairs, '
+        'is invariant under permuting the alternatives, the reported message is a longest one among those tied at the maximum, wrong_msg replaces it exactly when the best grade is 0 and that message is empty, '
+        'check raises iff some alternative raises, no alternatives = ConfigError. Tie: real table-driven ItemGrader (exact Fraction credits, scripted exceptions) and SingleListGraders in every/random listing order vs the model, exact; '
+        'plus a contract monitor of the same law on real String/Formula/Numerical/Matrix graders used one after another.',
+   note=PROOF_NOTE + ' Formula/Numerical/Matrix check_response functions are parameters of the theorem; that they go through the same ItemGrader.check is monitored, not proved.',
+   technique='Lean 4 proof (max/first-max lemmas, permutation invariance) + exact correspondence over listing orders', design='§6 C08'),
 }
 NA_REASON = 'check not built yet in this round (planned: see DESIGN.md §6); not claimed until its model, theorems and correspondence exist'
 
